@@ -241,12 +241,12 @@ type InstrFacts struct {
 // compares a field with are visible in its source, whatever they are; the
 // enumerations add them and their neighbours to their domains.
 var Mined struct {
-	Lens     []int    // n-1, n, n+1 for every integer constant n in 301..4 Mi (0..300 is swept anyway)
-	Counts   []int    // n-1, n, n+1 for every integer constant n in 2..300
-	Strings  []string // token-like string constants (no blanks, no format verbs), at most 32 bytes
-	Loaded   bool
-	RawInts  []int64
-	Novel    int // integer constants not in the pinned tree
+	Lens    []int    // n-1, n, n+1 for every integer constant n in 301..4 Mi (0..300 is swept anyway)
+	Counts  []int    // n-1, n, n+1 for every integer constant n in 2..300
+	Strings []string // token-like string constants (no blanks, no format verbs), at most 32 bytes
+	Loaded  bool
+	RawInts []int64
+	Novel   int // integer constants not in the pinned tree
 	// NovelLens / NovelCounts: the part of Lens / Counts that stems from
 	// constants the pinned tree does not have (used where every value costs
 	// megabytes or thousands of executions)
